@@ -431,8 +431,16 @@ impl Cnf {
     /// `lbl_to_pos`, which is a mapping from variable labels to their position
     /// in the ordering
     fn average_span(&self, lbl_to_pos: &[usize]) -> f64 {
+        if self.clauses.is_empty() {
+            // no clauses: nothing spans anything (and 0 / 0 would be NaN)
+            return 0.0;
+        }
         let mut total = 0;
         for clause in self.clauses.iter() {
+            if clause.is_empty() {
+                // an empty clause mentions no variable: its span is 0
+                continue;
+            }
             let mut min_pos = lbl_to_pos.len();
             let mut max_pos = 0;
             // find the two variables in the clause which are farthest
